@@ -18,6 +18,14 @@ pub trait Reg: Any {
     fn with(&self, f: usize, i: usize, v: u128) -> Box<dyn Reg>;
     /// `set_<f>(i, v)`
     fn set(&mut self, f: usize, i: usize, v: u128);
+    /// The bits the argument conversion of `with`/`set` actually hands to the setter of field
+    /// `f` for the bit pattern `v`. For a nested-bitfield field the argument is
+    /// `Inner::new_with_raw_value(v)` and what it carries is its own `raw_value()`: if the tree
+    /// under test breaks that round trip (C06's statement) the outer write still has to be
+    /// judged by what was supplied, not by what the harness meant to supply.
+    fn supplied(&self, _f: usize, v: u128) -> u128 {
+        v
+    }
     /// `Copy`
     fn clone_box(&self) -> Box<dyn Reg>;
     /// `T::new_with_raw_value(self.raw_value())` without any conversion by the harness
